@@ -27,6 +27,9 @@ struct Job {
     /// options the result must not depend on: bit 0 English, 1 ANSI, 2 smart quotes (only the 111 published
     /// keys are pressed for the non-zero settings)
     other: u8,
+    /// the context reaches its configuration through update-engine: created with every boolean option inverted (number pad
+    /// included), one word composed and ended, then re-configured while idle (published keys only)
+    via: bool,
 }
 
 fn expected<'a>(map: &'a HashMap<String, String>, code: u16, m: u8, numpad: bool) -> Option<&'a str> {
@@ -63,15 +66,16 @@ pub fn run(report: &Report, _thorough: bool) -> Evidence {
             for fsugg in [false, true] {
                 for prefix in ["", PREFIX] {
                     for other in 0..8u8 {
-                        jobs.push(Job { layout: l.clone(), map: map.clone(), numpad, fsugg, prefix, other });
+                        jobs.push(Job { layout: l.clone(), map: map.clone(), numpad, fsugg, prefix, other, via: false });
                     }
+                    jobs.push(Job { layout: l.clone(), map: map.clone(), numpad, fsugg, prefix, other: 0, via: true });
                 }
                 // further composition states, one per character class (published keys only): the un-gated rules of the
                 // composition (hasanta + sign, second hasanta, zo-fola after a bare ra, AU length mark) apply with all
                 // helpers off too, so the expectation there is the C12 reference step; where that defines nothing
                 // (rare signs, multi-code-point values) it is plain appending, as this statement says
                 for prefix in EXTRA_PREFIXES {
-                    jobs.push(Job { layout: l.clone(), map: map.clone(), numpad, fsugg, prefix, other: 1 << 7 });
+                    jobs.push(Job { layout: l.clone(), map: map.clone(), numpad, fsugg, prefix, other: 1 << 7, via: false });
                 }
             }
         }
@@ -99,6 +103,7 @@ pub fn run(report: &Report, _thorough: bool) -> Evidence {
                 o.english = job.other & 1 != 0 && job.other < 128;
                 o.ansi = job.other & 2 != 0;
                 o.smart = job.other & 4 != 0;
+                o.via_update = job.via;
                 let mut c = Ctx::new(&o).expect("context for C04");
                 c.with_pre = false;
                 c
@@ -107,7 +112,7 @@ pub fn run(report: &Report, _thorough: bool) -> Evidence {
             let mut count = 0u64;
             for code in (bi * 4096) as u32..((bi + 1) * 4096) as u32 {
                 let code = code as u16;
-                if job.other != 0 && keys::by_code(code).is_none() {
+                if (job.other != 0 || job.via) && keys::by_code(code).is_none() {
                     continue; // the full 65 536-code space is enumerated under the base setting of the other options
                 }
                 ctx.set_fixed(prefix, "", 0);
@@ -187,7 +192,7 @@ pub fn run(report: &Report, _thorough: bool) -> Evidence {
                             }
                         }
                         if exp_val.is_some() {
-                            nontrivial.insert((ji / 32, code, m & 2 != 0));
+                            nontrivial.insert((ji / 54, code, m & 2 != 0));
                             samples.offer(|| json!({"layout": job.layout, "numpad": job.numpad, "event": ev.short(), "expected": exp_text, "got": r.to_json()}));
                         }
                     }
